@@ -218,7 +218,7 @@ def w_dirs(kind: int, top: int, alt: int, pre: int, sp: int) -> str:
     pre: 0 <= kind < 6 and 0 <= top < 6 and 0 <= alt < 3 and 0 <= pre < 4 and 0 <= sp < 3
     post: _ == ''
     """
-    return _case(rt.sel(kind, 6), [0, 4, 6][sp], 0, 0, 0, rt.sel(top, 6), rt.sel(alt, 3), rt.sel(pre, 4), 0)
+    return _case(rt.sel(kind, 6), rt.of([0, 4, 6], sp), 0, 0, 0, rt.sel(top, 6), rt.sel(alt, 3), rt.sel(pre, 4), 0)
 
 
 def w_opts(kind: int, td: int, fb: int, alt: int, verbose: int, sp: int) -> str:
@@ -226,7 +226,7 @@ def w_opts(kind: int, td: int, fb: int, alt: int, verbose: int, sp: int) -> str:
     pre: 0 <= kind < 6 and 0 <= td < 3 and 0 <= fb < 4 and 0 <= alt < 3 and 0 <= verbose < 3 and 0 <= sp < 3
     post: _ == ''
     """
-    return _case(rt.sel(kind, 6), [0, 5, 11][sp], 0, rt.sel(td, 3), rt.sel(fb, 4), 5, rt.sel(alt, 3), 0, rt.sel(verbose, 3))
+    return _case(rt.sel(kind, 6), rt.of([0, 5, 11], sp), 0, rt.sel(td, 3), rt.sel(fb, 4), 5, rt.sel(alt, 3), 0, rt.sel(verbose, 3))
 
 
 def w_full(kind: int, sp: int, mode: int, td: int, fb: int, top: int, alt: int, pre: int) -> str:
